@@ -4,6 +4,8 @@
 # exit is a false alarm (ALARM) to be investigated. Prints one line per refactoring; with RESULTS=1 rewrites
 # neutral/RESULTS.tsv (id, kind, files, outcome).
 V=/verif; pat=${1:-.}
+PROPS=$($V/run list) || { echo "checker does not build" >&2; exit 2; }
+[ -z "$PROPS" ] && { echo "no properties listed" >&2; exit 2; }
 [ -n "$RESULTS" ] && : > $V/neutral/RESULTS.tsv.new
 for d in $V/neutral/*/; do
   id=$(basename $d); echo "$id" | grep -Eq "$pat" || continue
@@ -12,7 +14,7 @@ for d in $V/neutral/*/; do
   rsync -a --exclude .git /repo/ $S/
   if ! (cd $S && patch -p1 -s --no-backup-if-mismatch < $d/patch.diff >/dev/null 2>&1); then echo "$id NOAPPLY"; rm -rf $S; continue; fi
   line=""; 
-  for q in $($V/run list); do
+  for q in $PROPS; do
     out=$(PERFCHECK_REPO=$S PERFCHECK_VERIF=$S/.verif $V/run check $q 2>&1); rc=$?
     if [ $rc -ne 0 ]; then
       rules=$(echo "$out" | grep -E '^  rule=|^UNDECIDED' | sed -E 's/^  rule=([^ ]+).*/\1/; s/^UNDECIDED property=[^ ]+ rule=([^ ]+).*/\1(undecided)/' | sort -u | tr '\n' ',')
